@@ -163,13 +163,14 @@ def masks_with_popcount(nbits: int, e: int):
 # ----------------------------------------------------------------------------------------------
 # own V3000 renderer for E1 states (default spelling; listing deviations via bond_order / flips)
 # ----------------------------------------------------------------------------------------------
-def render_v3000(n, colors_resolved, bonds, xs=None, chgs=None, btypes=None) -> str:
+def render_v3000(n, colors_resolved, bonds, xs=None, chgs=None, btypes=None, atom_order=None) -> str:
     """colors_resolved: list of (el, mass, rad) per label; bonds: list of (a, b) 0-based in listing
     order and orientation."""
     lines = ["", "  mc-e1", "", "  0  0  0     0  0            999 V3000", "M  V30 BEGIN CTAB"]
     lines.append(f"M  V30 COUNTS {n} {len(bonds)} 0 0 0")
     lines.append("M  V30 BEGIN ATOM")
-    for i, (el, mass, rad) in enumerate(colors_resolved):
+    for i in (atom_order if atom_order is not None else range(n)):
+        el, mass, rad = colors_resolved[i]
         x = xs[i] if xs else 0
         s = f"M  V30 {i + 1} {el} {x} 0 0 0"
         if chgs and chgs[i]:
